@@ -168,10 +168,41 @@ def rule_register(ctx) -> None:
     getv = ctx.own(REG, "Register", "get_value")
     sbody, gbody = A.body_of(setv.node), A.body_of(getv.node)
 
+    E_BIG, E_LITTLE = Obj(value="big"), Obj(value="little")
+
+    def shared_leaf(x: ast.expr, ev):
+        """Endianness members and value_to_bytes with its documented contract (minimal byte count, counts above 2 rounded up to a multiple
+        of 4 when align_to_2n, an error when the count exceeds byte_cnt, byte_cnt bytes otherwise)."""
+        t = norm(x)
+        if t == "Endianness.BIG":
+            return E_BIG
+        if t == "Endianness.LITTLE":
+            return E_LITTLE
+        if isinstance(x, ast.Call) and norm(x.func) == "value_to_bytes":
+            v = ev.ev(A.arg_of(x, 0, "value"))
+            a2 = A.arg_of(x, 1, "align_to_2n")
+            bc = A.arg_of(x, 2, "byte_cnt")
+            en = A.arg_of(x, 3, "endianness")
+            align = ev.ev(a2) if a2 is not None else True
+            byte_cnt = ev.ev(bc) if bc is not None else None
+            order = ev.ev(en) if en is not None else E_BIG
+            if not isinstance(v, int) or v < 0 or order not in (E_BIG, E_LITTLE):
+                raise ordereval.Unsupported(x, "value_to_bytes outside the modelled domain")
+            cnt = max(1, (v.bit_length() + 7) // 8)
+            if align and cnt > 2:
+                cnt = -(-cnt // 4) * 4
+            if byte_cnt and cnt > byte_cnt:
+                raise ordereval.ModelRaise(ordereval.Outcome("raise", None, x))
+            return v.to_bytes(byte_cnt or cnt, order.value)
+        return None
+
     def run_set(me: Obj, val: int, raw: bool):
         holder: Dict[str, Any] = {}
 
         def sym(x: ast.expr):
+            r_ = shared_leaf(x, holder["ev"]) if "ev" in holder else None
+            if r_ is not None:
+                return r_
             if isinstance(x, ast.Call):
                 f = norm(x.func)
                 if f == "value_to_int":
@@ -206,6 +237,9 @@ def rule_register(ctx) -> None:
         holder: Dict[str, Any] = {}
 
         def sym(x: ast.expr):
+            r_ = shared_leaf(x, holder["ev"]) if "ev" in holder else None
+            if r_ is not None:
+                return r_
             if isinstance(x, ast.Call):
                 f = norm(x.func)
                 if f == "self.get_alt_width":
@@ -266,6 +300,29 @@ def rule_register(ctx) -> None:
         raise AnalysisError(f"C11.register-group: left the fragment: {e}")
     chk.decide(cex is None, "C11.register-group", f"{REG}::Register.set_value/get_value", f"group write distributes the value over the sub-registers (normal and reversed order) and group read recombines the same value ({n} cases)",
                f"sub-width {cex[0]} x{cex[1]} reversed={cex[2]} raw={cex[3]} value={cex[4]:#x}: sub-registers {cex[5]}, read back {cex[7]}" if cex else "", f"sub-registers {cex[6]}, read back the value written" if cex else "", A.loc(REG, setv.node))
+    # byte-reversed registers as a model: every value of every width (whole bytes, 1..5 and 8 bytes - widths that are not a multiple of
+    # four bytes included) is accepted, stored byte-swapped, read back as written, and raw access shows the stored form
+    cex = None
+    n = 0
+    try:
+        for nb in (1, 2, 3, 4, 5, 8):
+            W = 8 * nb
+            for base in (E_LITTLE, E_BIG):
+                for v in sorted(x_ for x_ in {0, 1, 0xFF, 0x100, 0xFFFF, 0x10000, (1 << (W - 8)), (1 << W) - 1, (0x0102030405060708 >> (64 - W))} if 0 <= x_ < (1 << W)):
+                    me = Obj(width=W, reverse=True, sub_regs=(), reverse_subregs_order=False, _value=0, base_endianness=base)
+                    out = run_set(me, v, False)
+                    stored = me._value
+                    g = run_get(me, False) if out.kind == "fall" else None
+                    gr = run_get(me, True) if out.kind == "fall" else None
+                    n += 1
+                    want_stored = int.from_bytes(v.to_bytes(nb, "big"), "little")
+                    ok = out.kind == "fall" and stored == want_stored and g.kind == "return" and g.value == v and gr.kind == "return" and gr.value == want_stored
+                    if not ok and cex is None:
+                        cex = (W, v, out.kind, stored, want_stored, getattr(g, "value", None))
+    except ordereval.Unsupported as e:
+        raise AnalysisError(f"C11.register-reverse-model: left the fragment: {e}")
+    chk.decide(cex is None, "C11.register-reverse-model", f"{REG}::Register.set_value/get_value (reverse)", f"a byte-reversed register of any whole-byte width accepts every value that fits, stores it byte-swapped and reads it back ({n} cases)",
+               f"width {cex[0]} value {cex[1]:#x}: set_value {cex[2]}s, stored {cex[3]:#x} (expected {cex[4]:#x}), read back {cex[5]!r}" if cex else "", "", A.loc(REG, setv.node))
     # byte reversal branches: opposite byte orders, same width, only in non-raw reversed mode
     for fn in (setv, getv):
         ifs = [n2 for n2 in A.walk_no_nested(fn.node) if isinstance(n2, ast.If) and norm(n2.test) == "not raw and self.reverse"]
@@ -303,6 +360,17 @@ def rule_register(ctx) -> None:
         norm(A.arg_of(sv[0], 1, "raw")) == "True"
     chk.decide(ok, "C11.export-parse", ps.qual, "parse reads the same window [offset : offset + width // 8] in base endianness and stores raw",
                f"window [{norm(sl[0].slice.lower) if sl else ''} : {norm(sl[0].slice.upper) if sl else ''}], store {norm(sv[0]) if sv else ''}", "", A.loc(REG, ps.node))
+    # writer and reader walk the same register set: the top-level registers (a group is exported as ONE block of its whole width in base
+    # endianness, so it is read back as one block; walking the sub-registers instead swaps them whenever block order and base endianness differ)
+    def top_level_loop(fn_):
+        loops = [n2 for n2 in ast.walk(fn_.node) if isinstance(n2, ast.For) and isinstance(n2.target, ast.Name) and n2.target.id == "reg"]
+        its = [norm(l.iter) for l in loops]
+        skips = [n2 for l in loops for n2 in ast.walk(l) if isinstance(n2, ast.If) and "has_group_registers" in norm(n2.test) and any(isinstance(x, ast.Continue) for x in ast.walk(n2))]
+        return its, bool(its) and all(t in ("self.get_registers()", "self._registers", "list(self._registers)") for t in its) and not skips
+    its_w, ok_w = top_level_loop(ii)
+    its_r, ok_r = top_level_loop(ps)
+    chk.decide(ok_w and ok_r, "C11.export-parse", f"{ii.qual} / {ps.qual} register set", "export and parse both walk the top-level registers (groups as one block)",
+               f"export walks {its_w}, parse walks {its_r}{'' if ok_r else ' (group registers skipped / sub-registers walked)'}", "for reg in self.get_registers()", A.loc(REG, ps.node))
     ex = ctx.own(REG, "_RegistersBase", "export")
     r = A.returns_in(ex.node)
     chk.decide(bool(r) and norm(r[0].value) == "self.image_info(size, pattern).export()", "C11.export-parse", ex.qual, "export is the export of image_info", norm(r[0]) if r else "", "", A.loc(REG, ex.node))
